@@ -341,11 +341,6 @@ Proof.
 Qed.
 
 (* the mock walker's final register file, rule by rule *)
-Definition mock_cell (w : Z) (n : bytes) (o : option Z) : cell :=
-  match o with
-  | Some v => if starts_no n || negb (fits w v) then Cleared else SetTo v
-  | None => Cleared
-  end.
 
 Lemma fold_regs_notin : forall w p E cfa l s n,
   ~ In (ROther n) (map fst l) ->
